@@ -5,9 +5,11 @@ ID = 'C20'
 COQ_TARGETS = ['Props/Properties_C20.vo']
 PROPS_FILES = ['Props/Properties_C20.v']
 THEOREMS = ['C20_sortmx', 'C20_sortmx_stable', 'C20_spec_checker_sound', 'C20_spec_checker_complete', 'C20_spec_checker_accepts_sortmx', 'C20_tryconn_once', 'C20_not_me', 'C20_targets', 'C20_route_order', 'C20_route_empty_relay', 'C20_dnsmx', 'C20_getmxlist', 'C20_main', 'C20_connect_compose', 'C20_connect_once', 'C20_connect_noent_after_all',
-            'C20_connect_total', 'C20_temp_failure_refuted', 'C20_temp_failure_partial', 'C20_connect_exit_classes', 'C20_ports']
+            'C20_connect_total', 'C20_temp_failure_refuted', 'C20_temp_failure_partial', 'C20_connect_exit_classes',
+            'C20_inet_pton_value', 'C20_route_keys_order', 'C20_route_keys_erase', 'C20_route_keys_meaning', 'C20_route_keys_errors',
+            'C20_route_duplicate_keys', 'C20_route_key_name', 'C20_target_literal', 'C20_relay_literal_name', 'C20_default_clientkey', 'C20_ports']
 ENGINES = [dict(name='mx', c_sources=['mx_h.c'], extract='Extract/Extract_mx.v', driver='mx_driver.ml',
-                accepts=lambda c: c.split(' ')[0] in ('01', '02', '03', '04', '05', '06', '07')),
+                accepts=lambda c: c.split(' ')[0] in ('01', '02', '03', '04', '05', '06', '07', '08')),
            # connect_mx() over the real tryconn(): the harness of C18/C04 (real main, conn_mx.c, conn.c, greeting.c, starttlsr.c, netio.c), op ca
            dict(name='mxconn', c_sources=['tlssw_h.c'], extract='Extract/Extract_mxconn.v', driver='mxconn_driver.ml',
                 glue=('glue.ml', 'glue_z.ml'), accepts=lambda c: c.startswith('ca '), shrink_from=5)]
@@ -20,7 +22,9 @@ RULE = ('cases = (01) MX lists of 1..9 entries, preferences drawn from a small s
         '254..256 octets), smtproutes.d holding random subsets of the probed names plus near-miss names, file contents with relay=/port= lines, '
         'duplicates, unknown keys, rejected lines in front of valid ones, port strings at 0/1/65535/65536/2^32+25/2^64+25/signs/garbage, relays that '
         'resolve, resolve to nothing or do not resolve, control/smtproutes with exact / suffix / empty / differently-cased / non-matching patterns, '
-        '0..3 colons; (05) the statement sequence of main(): filter on port 25, sort, connect; (06) ask_dnsmx of lib/qdns.c over a stubbed resolver: '
+        '0..3 colons; (08) the same with all six keys: certificate/key paths readable or not, outgoingip / outgoingip6 values valid, malformed, of the other '
+        'family, v4-mapped in two spellings, relays that are address texts, control/clientkey.pem present or not, duplicate and unknown keys; address '
+        'literals as target (24 forms) through op 07; (05) the statement sequence of main(): filter on port 25, sort, connect; (06) ask_dnsmx of lib/qdns.c over a stubbed resolver: '
         '0..5 MX records with tied preferences, 0 and 65535, names that resolve / resolve to nothing / fail temporarily, permanently, with ENOMEM, null MX, '
         'dnsmx failing four ways; (07) getmxlist (real smtproute + ask_dnsmx) followed by the sequence of main() on configurations mixing all of the above. '
         'non-trivial = sort: at least two entries share a preference; connect: at least one failed attempt followed by another; '
@@ -47,11 +51,12 @@ ASSUMPTIONS = [
     'for the connect theorems the list is fresh: every priority <= 65536 (DNS preferences are 16 bit, implicit MX is 65536)',
     'connect()/bind()/socket() outcomes are an arbitrary oracle list; greeting/EHLO failures are connect_mx calling tryconn again (modelled as the number of calls)',
     'getifaddrs() reports the local addresses; when it fails filter_my_ips returns the list unchanged (by design of the C) and nothing is claimed',
-    'smtproute: target name at most 254 octets, free of "/" and NUL, not "." or ".."; control files are clean text; only the keys relay= and port= of '
-    'smtproutes.d files are modelled (clientcert, clientkey, outgoingip, outgoingip6 are outside); ask_dnsaaaa of the relay is an oracle table',
+    'smtproute: target name at most 254 octets, free of "/" and NUL, not "." or ".."; control files are clean text; ask_dnsaaaa of the relay is an oracle table; '
+    'access(path, R_OK) for clientcert/clientkey and the presence of control/clientkey.pem are oracles; inet_pton is the glibc 2.36 algorithm '
+    '(Model/InetPtonVal.v, value-producing twin of C14\'s validity model), tied to libc by the run',
     'the resolver (libowfat dnsmx/dnsip6 behind include/libowfatconn.h) is an oracle: MX records with 16-bit preferences in wire format, per name either addresses or '
     'a temporary / permanent / out-of-memory failure; IPv4 addresses arrive v4-mapped from dnsip6',
-    'the target is not an address literal ("[...]" branch of getmxlist is not modelled)',
+    'an address literal "[...]" as target is modelled (getmxlist_x); its entry has no name and port 25',
     'connect phase (engine mxconn): servers are scripted byte streams with close or silence at the end, OpenSSL and dnstlsa are oracles (as in C18/C04), '
     'every connection that comes about has a scripted server; the partner name is reduced to "the entry has a name"',
 ]
@@ -254,6 +259,62 @@ def main_case(rng):
 def total_addrs(es):
     return sum((len(e) // 2 - 5) // 16 for e in es)
 
+# ---------------------------------------------------------------- smtproute with all keys (op 08), address literals as target (op 07)
+KPATHS = [b'control/c.pem', b'control/k.pem', b'control/missing.pem', b'/etc/ssl/c.pem', b'c']
+OIP4 = [b'192.0.2.1', b'10.0.0.1', b'0.0.0.0', b'255.255.255.255', b'127.0.0.1'] * 2 + [b'x', b'1.2.3', b'01.2.3.4', b'256.1.1.1', b'1.2.3.4.', b'1.2.3.4.5',
+        b'1..2.3', b'', b'2001:db8::1', b'::ffff:1.2.3.4', b'1.2.3.a', b'00.1.2.3', b'0.1.2.3', b'1.2.3.255', b'1.2.3.256']
+OIP6 = [b'2001:db8::1', b'::1', b'::', b'fe80::1:2', b'1:2:3:4:5:6:7:8', b'::1.2.3.4', b'2001:db8::10.0.0.1', b'1:2:3:4:5:6:1.2.3.4', b'ABCD:ef01::', b'1::8'] * 2 + \
+       [b'::ffff:1.2.3.4', b'::ffff:102:304', b'0:0:0:0:0:ffff:1.2.3.4', b'1.2.3.4', b':::', b'1::2::3', b'g::1', b'12345::', b'1:2:3:4:5:6:7:8:9', b'1:2:3:4:5:6:7',
+        b'::1.2.3', b'', b':', b'1:', b':1', b'1:2:3:4:5:6:7::', b'::2:3:4:5:6:7:8', b'1:2:3:4:5:6:7:1.2.3.4', b'::ffff:1.2.3.256', b'::01.2.3.4', b'1::2:', b'ffff0::1']
+LITRELAYS = [(b'10.0.0.5', [v4(10, 0, 0, 5)]), (b'::ffff:10.0.0.5', [v4(10, 0, 0, 5)]), (b'2001:db8::7', [v6(7)]), (b'192.0.2.300', [v4(192, 0, 2, 44)]), (b'::1', [])]
+
+def d_file_content_x(rng):
+    lines = []
+    for _ in range(rng.choice([0, 1, 2, 2, 3, 4, 5])):
+        x = rng.random()
+        if x < 0.22: lines.append(b'relay=' + rng.choice([r[0] for r in RELAYS if r[1]] * 2 + [r[0] for r in LITRELAYS] * 2 + [b'unresolved', b'']))
+        elif x < 0.36: lines.append(b'port=' + rng.choice(PORTS))
+        elif x < 0.52: lines.append(b'clientcert=' + rng.choice(KPATHS))
+        elif x < 0.64: lines.append(b'clientkey=' + rng.choice(KPATHS))
+        elif x < 0.78: lines.append(b'outgoingip=' + rng.choice(OIP4))
+        elif x < 0.92: lines.append(b'outgoingip6=' + rng.choice(OIP6))
+        else: lines.append(rng.choice([b'foo=bar', b'host=mail.example.net', b'clientcert', b'outgoingip7=1', b'outgoing=1.2.3.4', b'Clientcert=c']))
+    return b'\n'.join(lines) + (b'\n' if lines and rng.random() < 0.85 else b'')
+
+def route_case_x(rng):
+    tab = [r for r in RELAYS + LITRELAYS if rng.random() < 0.93]
+    host, _, rf, files = route_parts(rng, tab)
+    if rng.random() < 0.5 and not host.startswith(b'.'):
+        host = rng.choice(HOSTS[:6])
+    # rewrite the file contents with all keys; make a probed file likely
+    names = [n for n in probe_names(host) if 0 < len(n) <= 255 and n not in (b'.', b'..') and b'/' not in n]
+    chosen = [n for n in names if rng.random() < 0.4] + [n for n in (b'Default', b'*.org') if rng.random() < 0.1]
+    files = [(bytes([len(n)]) + n + d_file_content_x(rng)).hex() for n in dict.fromkeys(chosen)]
+    flags = bytes.fromhex(rf)[0]
+    if files: flags |= 2
+    if rng.random() < 0.5: flags |= 4
+    rc = bytes.fromhex(rf)[1:]
+    if flags & 1 and rng.random() < 0.5:
+        rc += b'.example.net:' + rng.choice([r[0] for r in LITRELAYS]) + b'\n'
+    readable = b''.join(bytes([len(p)]) + p for p in KPATHS if p != b'control/missing.pem' and rng.random() < 0.75)
+    return ' '.join(['08', R.hx(host), dns_field(tab), (bytes([flags]) + (rc if flags & 1 else b'')).hex(), R.hx(readable)] + files)
+
+LITERALS = [b'[192.0.2.19]', b'[::ffff:192.0.2.19]', b'[2001:db8::19]', b'[::1]', b'[10.0.0.1]', b'[127.0.0.1]', b'[0.0.0.0]', b'[::]',
+            b'[192.0.2.19', b'[]', b'[', b'[mail.example.net]', b'[1.2.3]', b'[1.2.3.4]x', b'[01.2.3.4]', b'[::1%eth0]', b'[[::1]]', b'[1.2.3.4]]',
+            b'[IPv6:::1]', b'[1:2:3:4:5:6:7:8]', b'[1:2:3:4:5:6:7:8:9]', b'[::ffff:10.0.0.1]', b'[256.1.1.1]', b'x[1.2.3.4]']
+
+def literal_case(rng):
+    host = rng.choice(LITERALS)
+    tab, rec = mx_world(rng, b'example.net')
+    _, _, rf, files = route_parts(rng, [])
+    t = 2
+    par = bytes([rng.randrange(0, 4), 0, 0, 0])
+    # interfaces: sometimes the literal's own address (local) -> ALLME
+    ifs = rng.choice(['00', '00', '0004' + (bytes(12) + bytes([10, 0, 0, 1])).hex(), '0004' + (bytes(12) + bytes([192, 0, 2, 19])).hex(),
+                      '0006' + (bytes([0x20, 1, 0x0d, 0xb8]) + bytes(11) + bytes([0x19])).hex()])
+    return ' '.join(['07', R.hx(host), dnsx_field(tab), rec, rf, par.hex(), R.hx(oracle(rng, t)), ifs] + files)
+
+
 def mxconn_case(rng):
     import C04
     nent = rng.choice([1, 1, 2, 2, 3, 4])
@@ -304,6 +365,10 @@ def gen_cases(engine, rng, tier):
         # 06 ask_dnsmx, 07 getmxlist + main()
         out.append(dnsmx_case(rng))
         out.append(main_case(rng))
+        # 08 smtproute with all keys; every fourth round an address literal as target (op 07)
+        out.append(route_case_x(rng))
+        if i % 4 == 0:
+            out.append(literal_case(rng))
     return out
 
 def _entries(fields):
@@ -346,6 +411,8 @@ def nontrivial(case, c_out):
         return any(a.startswith('A') and b.startswith('A') for a, b in zip(toks, toks[1:]))
     if f[0] == '03':
         return c_out.startswith('OK') and sum(len(x) for x in c_out.split(' ')[1:]) < sum(len(x) for x in f[2:])
+    if f[0] == '08':
+        return c_out.startswith('ROUTE') and (' T1 ' in c_out or ' O00000000000000000000ffff' in c_out or (' P' in c_out and not c_out.endswith('P' + '00' * 16)))
     if f[0] == '04':
         # a route was found although at least two files / lines were candidates
         return c_out.startswith('ROUTE') and not c_out.endswith('NONE') and (len(f) > 5 or bytes.fromhex(f[3])[1:].count(b'\n') > 1)
@@ -360,7 +427,7 @@ def distribution(results):
             k = 'ca:' + ('used' if used else 'all-tried' if natt == total else 'gave-up-early')
             d[k] = d.get(k, 0) + 1
             continue
-        k = op + ':' + ('crash' if r['c'] in ('CRASH', 'TIMEOUT') else 'allme' if r['c'].endswith('ALLME') else 'die' if r['c'].startswith('DIE') else 'rc' if r['c'].startswith('RC') else 'fatal' if r['c'] == 'FATAL' else 'pre' if r['spec'] == 'pre' else 'noroute' if r['c'].endswith(' NONE') else 'run')
+        k = op + ':' + ('crash' if r['c'] in ('CRASH', 'TIMEOUT') else 'allme' if r['c'].endswith('ALLME') else 'die' if r['c'].startswith('DIE') else 'rc' if r['c'].startswith('RC') else 'fatal' if r['c'].startswith('FATAL') else 'pre' if r['spec'] == 'pre' else 'noroute' if r['c'].endswith(' NONE') else 'run')
         d[k] = d.get(k, 0) + 1
     return d
 
@@ -379,7 +446,7 @@ LEVEL_NOTE = ('Trusted: Coq kernel, translator regexes, extraction (ExtrOcamlBas
               'The connect phase is the C04/C18 model of connect_mx() composed with the tryconn model (C20_connect_*): candidates once each in order, every failure but a '
               'silent server, dup2, a local TLS problem and the pinned-host refusal moves on (those four are the known finding F-C20-5), Z4.4.2 only after all. '
               'Not covered by a theorem: the statement order of main() '
-              '(checked by the translator and repeated in the harness, main() cannot be included), the "[address]" target form, the smtproutes.d keys other than relay/port, '
+              '(checked by the translator and repeated in the harness, main() cannot be included), '
               'a whole-program Qremote run.')
 TECHNIQUE = ('Coq proofs by induction over the lists (insertion-sort invariant with a numeric key, representation invariant of the USED/CURRENT marks, '
              'fuel-bounded probe loop against the list of documented names); translator-regenerated constants; model-vs-C differential run')
